@@ -3,8 +3,10 @@ package rules
 import (
 	"fmt"
 	"go/ast"
+	"go/constant"
 	"go/token"
 	"go/types"
+	"regexp"
 	"sort"
 	"strings"
 
@@ -283,45 +285,47 @@ func (e *Env) RMapsAllocated() {
 }
 
 // panicConfirmed: number of explicit panic sites per function read and classified at build time.
-var panicConfirmed = map[string]int{
-	"(*Decorator).DecorateNode": 2, "(*FileRestorer).RestoreFile": 3, "(*fileDecorator).resolvePath": 2, "(*FileRestorer).restoreIdent": 2,
-	"(*fileDecorator).decorateObject": 2, "(*FileRestorer).restoreObject": 2, "(*fileDecorator).link": 2, "(*FileRestorer).restoreNode": 2,
-	"mergeDecorations": 1, "mustUnquote": 2, "Clone": 1, "Walk": 1, "(*application).apply": 2, // (upper bounds: default arms of converter switches are classified structurally)
-	"Apply": 1, "(*Cursor).Replace": 1,
-	"(*Cursor).Delete": 1, "(*Cursor).InsertAfter": 1, "(*Cursor).InsertBefore": 1, "NewPackage": 1, "(*printer).printf": 1, "(*printer).print": 0,
-	"Fprint": 1, "fprint": 1,
+// panicClassified: explicit panic sites on the paths reachable from the parse/print entry points,
+// classified by their MESSAGE (the literal or format string), not by the function they sit in: a
+// panic that moves with its code into a helper keeps its classification, a new message is
+// undecided. Panics that re-raise a value (panic(err), panic(r)) are keyed by function and operand.
+// The value is how many sites may carry the message.
+var panicClassified = map[string]struct {
+	n   int
+	why string
+}{
+	"Decorator Path should be empty when Resolver is nil": {1, "API misuse precondition"},
+	"Decorator Path should be set when Resolver is set":   {1, "API misuse precondition"},
+	"Restorer Path should be empty when Resolver is nil":  {1, "API misuse precondition"},
+	"Restorer Path should be set when Resolver is set":    {1, "API misuse precondition"},
+	"ff.SetLines failed":           {1, "positional: the line table is proven strictly increasing and inside the file by R-CURSOR"},
+	"resolvePath needs a Resolver": {1, "callers test f.Resolver != nil (R-RESOLVE)"},
+	"decorateIdent: unsupported parentName %s, parentField %s, parentFieldType %s": {1, "field-type literal proven by R-ASSERT/R-ROLE"},
+	"This syntax has been decorated with import management enabled, but the restorer does not have import management enabled. Use NewRestorerWithImports to create a restorer with import management. See the Imports section of the readme for more information.": {1, "API misuse precondition (path-carrying identifier without resolver)"},
+	"Path %s set on illegal Ident %s: parentName %s, parentField %s, parentFieldType %s": {1, "API misuse precondition (path on a declaring position)"},
+	"o.Decl is %T":                    {2, "default arm of a type switch over the documented Object.Decl contents"},
+	"o.Data is %T":                    {2, "default arm of a type switch over the documented Object.Data contents"},
+	"no decoration found for ":        {1, "positional: every comment lies between two decoration points of the file node; not decided statically"},
+	"no decoration found for newline": {1, "positional (see above)"},
+	"duplicate node: %#v":             {1, "documented contract (C06)"},
+	"%T":                              {1, "default arm of mergeDecorations over the three slot types it is called with"},
+	"attempt to replace *dst.File with non-*dst.File": {1, "fork of astutil: API misuse"},
+	"Delete node not contained in slice":              {1, "fork of astutil: API misuse"},
+	"InsertAfter node not contained in slice":         {1, "fork of astutil: API misuse"},
+	"InsertBefore node not contained in slice":        {1, "fork of astutil: API misuse"},
+	"value:mustUnquote:err":                           {2, "import path literal of a parsed ImportSpec is always a valid Go string"},
+	"value:Apply:r":                                   {1, "re-panics foreign panics only"},
+	"value:(*application).apply:abort":                {1, "abort sentinel recovered in Apply"},
+	"value:(*printer).printf:localError{…}":           {1, "debug printer (dst.Print), same as go/ast: recovered in fprint"},
+	"value:Fprint:e":                                  {1, "debug printer: re-panics foreign panics only"},
+	"value:fprint:e":                                  {1, "debug printer: re-panics foreign panics only"},
 }
 
 // RPanicInventory: every explicit panic in the packages reachable from parse/print entry points
 // is classified; a new one is reported as undecided.
 func (e *Env) RPanicInventory() {
-	classified := map[string]string{
-		"(*Decorator).DecorateNode":       "API misuse precondition (Path without Resolver / Resolver without Path)",
-		"(*FileRestorer).RestoreFile":     "API misuse precondition; SetLines failure is positional (line table is proven strictly increasing by R-CURSOR)",
-		"(*fileDecorator).resolvePath":    "needs a Resolver (callers test it); field-type literal proven by R-ASSERT/R-ROLE",
-		"(*FileRestorer).restoreIdent":    "API misuse precondition (path-carrying identifier without resolver; path on a declaring position)",
-		"(*fileDecorator).decorateObject": "default arm of a type switch over documented Object.Decl/Data contents",
-		"(*FileRestorer).restoreObject":   "default arm of a type switch over documented Object.Decl/Data contents",
-		"(*fileDecorator).link":           "positional: 'no decoration found' (every comment lies between two decoration points of the file node; not decided statically)",
-		"(*FileRestorer).restoreNode":     "duplicate node (documented contract, C06) and default arm proven unreachable by R-COVER",
-		"mergeDecorations":                "default arm over the three slot types it is called with",
-		"mustUnquote":                     "import path literal of a parsed ImportSpec is always a valid Go string",
-		"Clone":                           "default arm proven unreachable by R-COVER",
-		"Walk":                            "default arm proven unreachable by R-COVER",
-		"(*application).apply":            "default arm proven unreachable by R-COVER; abort sentinel recovered in Apply",
-		"Apply":                           "re-panics foreign panics only",
-		"(*Cursor).Replace":               "API misuse (non-file replacement of a file)",
-		"(*Cursor).Delete":                "API misuse (node not in a slice)",
-		"(*Cursor).InsertAfter":           "API misuse (node not in a slice)",
-		"(*Cursor).InsertBefore":          "API misuse (node not in a slice)",
-		"NewPackage":                      "fork of go/ast (internal error arm)",
-		"(*printer).printf":               "debug printer (dst.Print), same as go/ast",
-		"(*printer).print":                "debug printer (dst.Print), same as go/ast",
-		"Fprint":                          "debug printer (dst.Print), same as go/ast: recovers its own localError",
-		"fprint":                          "debug printer (dst.Print), same as go/ast: recovers its own localError",
-	}
 	n := 0
-	perFunc := map[string][]token.Pos{}
+	perKey := map[string][]token.Pos{}
 	// the default arm of a converter's type switch is proven unreachable by R-COVER wherever that
 	// switch lives (in the function itself or in a helper it was moved to)
 	inCoveredDefault := func(p token.Pos) string {
@@ -334,47 +338,76 @@ func (e *Env) RPanicInventory() {
 		}
 		return ""
 	}
-	nDefault := 0
 	for _, path := range []string{load.PkgDst, load.PkgDecorator, load.PkgDstutil, load.PkgGoast, load.PkgGotypes, load.PkgGuess, load.PkgSimple} {
 		pkg := e.Prog.Pkg(path)
+		info := pkg.TypesInfo
 		for _, fd := range load.AllFuncDecls(pkg) {
 			if fd.Body == nil {
 				continue
 			}
 			ast.Inspect(fd.Body, func(nd ast.Node) bool {
 				call, ok := nd.(*ast.CallExpr)
-				if !ok {
+				if !ok || len(call.Args) != 1 {
 					return true
 				}
 				id, ok := call.Fun.(*ast.Ident)
 				if !ok || id.Name != "panic" {
 					return true
 				}
-				if _, isB := pkg.TypesInfo.Uses[id].(*types.Builtin); !isB {
+				if _, isB := info.Uses[id].(*types.Builtin); !isB {
 					return true
 				}
 				n++
 				if sib := inCoveredDefault(call.Pos()); sib != "" {
-					nDefault++
 					e.Run.OK("R-NOPANIC", "panic in the default arm of the "+sib+" type switch", e.Prog.Pos(call.Pos()), "proven unreachable by R-COVER (every node type has a case)")
 					return true
 				}
-				perFunc[load.FuncName(fd)] = append(perFunc[load.FuncName(fd)], call.Pos())
+				if objectContentsDefault(info, fd, call) {
+					e.Run.OK("R-NOPANIC", "panic in the default arm of a type switch over Object.Decl/Data contents", e.Prog.Pos(call.Pos()), "documented contents: Scope, Node, (int,) nil")
+					return true
+				}
+				// message: a constant string, the format of fmt.Sprintf, or the constant left operand of +
+				key := ""
+				arg := ast.Unparen(call.Args[0])
+				strConst := func(x ast.Expr) (string, bool) {
+					if tv, ok := info.Types[x]; ok && tv.Value != nil && tv.Value.Kind() == constant.String {
+						return constant.StringVal(tv.Value), true
+					}
+					return "", false
+				}
+				if sv, ok := strConst(arg); ok {
+					key = sv
+				} else if c2, ok := arg.(*ast.CallExpr); ok && funcKey(calleeFunc(info, c2)) == "fmt.Sprintf" && len(c2.Args) > 0 {
+					if sv, ok := strConst(c2.Args[0]); ok {
+						key = sv
+					}
+				} else if be, ok := arg.(*ast.BinaryExpr); ok && be.Op == token.ADD {
+					if sv, ok := strConst(be.X); ok {
+						key = sv
+					}
+				}
+				if key == "" {
+					key = "value:" + load.FuncName(fd) + ":" + types.ExprString(arg)
+				}
+				perKey[key] = append(perKey[key], call.Pos())
 				return true
 			})
 		}
 	}
-	for _, name := range sortedKeys(perFunc) {
-		sites := perFunc[name]
-		why, ok := classified[name]
-		limit := panicConfirmed[name]
+	for _, key := range sortedKeys(perKey) {
+		sites := perKey[key]
+		cl, ok := panicClassified[key]
+		label := key
+		if len(label) > 60 {
+			label = label[:60] + "…"
+		}
 		switch {
 		case !ok:
-			e.Run.Undecided("R-NOPANIC", "panic sites in "+name, e.Prog.Pos(sites[0]), "explicit panic in a function that has no classified panic: reachability from Parse/Fprint not decided")
-		case len(sites) > limit:
-			e.Run.Undecided("R-NOPANIC", "panic sites in "+name, e.Prog.Pos(sites[len(sites)-1]), fmt.Sprintf("%d explicit panics, %d were classified at build time (%s): the additional one is not decided", len(sites), limit, why))
+			e.Run.Undecided("R-NOPANIC", "panic sites with message «"+label+"»", e.Prog.Pos(sites[0]), "an explicit panic with a message that is not classified: reachability from Parse/Fprint not decided")
+		case len(sites) > cl.n:
+			e.Run.Undecided("R-NOPANIC", "panic sites with message «"+label+"»", e.Prog.Pos(sites[len(sites)-1]), fmt.Sprintf("%d sites, %d were classified at build time (%s): the additional one is not decided", len(sites), cl.n, cl.why))
 		default:
-			e.Run.OK("R-NOPANIC", "panic sites in "+name, e.Prog.Pos(sites[0]), fmt.Sprintf("%d sites: %s", len(sites), why))
+			e.Run.OK("R-NOPANIC", "panic sites with message «"+label+"»", e.Prog.Pos(sites[0]), fmt.Sprintf("%d sites: %s", len(sites), cl.why))
 		}
 	}
 	e.Run.Analysed("explicit panic sites", n)
@@ -511,6 +544,24 @@ func (e *Env) RResolverFile() {
 		}
 		return true
 	})
+	// or an element of the list reached through locals (index loop, `if pf := f.list[i]; …`)
+	if listField == "" && okr {
+		re := regexp.MustCompile(`^\w+\.(\w+)\[[^\]]+\]$`)
+		for _, r := range rets {
+			if len(r.results) != 1 {
+				continue
+			}
+			if m := re.FindStringSubmatch(r.results[0]); m != nil {
+				if st, ok := load.LookupType(pkg, "fileDecorator").Underlying().(*types.Struct); ok {
+					for i := 0; i < st.NumFields(); i++ {
+						if st.Field(i).Name() == m[1] && st.Field(i).Type().String() == "[]*go/ast.File" {
+							listField = m[1]
+						}
+					}
+				}
+			}
+		}
+	}
 	// or an indexed element of the list (binary search)
 	if listField == "" {
 		ast.Inspect(helper.Body, func(n ast.Node) bool {
@@ -557,28 +608,95 @@ func (e *Env) RResolverFile() {
 		fmt.Sprintf("helper %s: returns the file field only under a nil check: %v; falls back to a search among a list of files: %v", helper.Name.Name, sawField && guardedField, listField != ""))
 	// (3) DecorateNode fills the list from the package's files
 	filled := false
+	scanBodies := []*ast.BlockStmt{dn.Body}
 	ast.Inspect(dn.Body, func(n ast.Node) bool {
-		rs, ok := n.(*ast.RangeStmt)
+		if cl, ok := n.(*ast.CallExpr); ok {
+			if fn := c.Callee(cl); fn != nil && fn.Pkg() == pkg.Types {
+				for _, d := range load.AllFuncDecls(pkg) {
+					if info.Defs[d.Name] == types.Object(fn) && d.Body != nil && d != dn {
+						scanBodies = append(scanBodies, d.Body)
+					}
+				}
+			}
+		}
+		return true
+	})
+	for _, sb := range scanBodies {
+		ast.Inspect(sb, func(n ast.Node) bool {
+			rs, ok := n.(*ast.RangeStmt)
+			if !ok {
+				return true
+			}
+			se, ok := ast.Unparen(rs.X).(*ast.SelectorExpr)
+			if !ok || se.Sel.Name != "Files" {
+				return true
+			}
+			if p, nme := namedOf(info.TypeOf(se.X)); p != "go/ast" || nme != "Package" {
+				return true
+			}
+			ast.Inspect(rs.Body, func(m ast.Node) bool {
+				if as, ok := m.(*ast.AssignStmt); ok && len(as.Lhs) == 1 {
+					if l, ok := as.Lhs[0].(*ast.SelectorExpr); ok && l.Sel.Name == listField && listField != "" {
+						filled = true
+					}
+				}
+				return true
+			})
+			return true
+		})
+	}
+	e.Run.Check("R-NOPANIC", "DecorateNode records the files of a package for identifier resolution", e.Prog.Pos(dn.Pos()), filled,
+		"no loop over the *ast.Package's Files that fills fileDecorator."+listField+": with a package the resolver would get no file")
+}
+
+// objectContentsDefault: the panic is the body of the default arm of a type switch that has an arm
+// for *Scope (of dst or go/ast): the switches over Object.Decl / Object.Data, whose documented
+// contents are a Scope, a Node, an int (Data) or nil.
+func objectContentsDefault(info *types.Info, fd *ast.FuncDecl, call *ast.CallExpr) bool {
+	found := false
+	ast.Inspect(fd.Body, func(n ast.Node) bool {
+		ts, ok := n.(*ast.TypeSwitchStmt)
 		if !ok {
 			return true
 		}
-		se, ok := ast.Unparen(rs.X).(*ast.SelectorExpr)
-		if !ok || se.Sel.Name != "Files" {
-			return true
-		}
-		if p, nme := namedOf(info.TypeOf(se.X)); p != "go/ast" || nme != "Package" {
-			return true
-		}
-		ast.Inspect(rs.Body, func(m ast.Node) bool {
-			if as, ok := m.(*ast.AssignStmt); ok && len(as.Lhs) == 1 {
-				if l, ok := as.Lhs[0].(*ast.SelectorExpr); ok && l.Sel.Name == listField && listField != "" {
-					filled = true
+		hasScope := false
+		var def *ast.CaseClause
+		for _, cl := range ts.Body.List {
+			cc := cl.(*ast.CaseClause)
+			if cc.List == nil {
+				def = cc
+				continue
+			}
+			for _, t := range cc.List {
+				if _, tn := namedOf(info.TypeOf(t)); tn == "Scope" {
+					hasScope = true
 				}
 			}
-			return true
-		})
+		}
+		if hasScope && def != nil && def.Pos() <= call.Pos() && call.End() <= def.End() && len(def.Body) == 1 {
+			found = true
+		}
+		// or the statement that follows the switch (every arm that recognises the value returns)
+		if hasScope && def == nil {
+			ast.Inspect(fd.Body, func(m ast.Node) bool {
+				blk, ok := m.(*ast.BlockStmt)
+				if !ok {
+					return true
+				}
+				for i, st := range blk.List {
+					if st == ast.Stmt(ts) && i+1 < len(blk.List) {
+						nx := blk.List[i+1]
+						if nx.Pos() <= call.Pos() && call.End() <= nx.End() {
+							if _, isExpr := nx.(*ast.ExprStmt); isExpr {
+								found = true
+							}
+						}
+					}
+				}
+				return true
+			})
+		}
 		return true
 	})
-	e.Run.Check("R-NOPANIC", "DecorateNode records the files of a package for identifier resolution", e.Prog.Pos(dn.Pos()), filled,
-		"no loop over the *ast.Package's Files that fills fileDecorator."+listField+": with a package the resolver would get no file")
+	return found
 }
